@@ -258,6 +258,13 @@ def check_sdl(sdl, kind, opts, extra_template=None):
                 return f"class {tname} has members {sorted(extra)} that are not GraphQL fields"
             for fname, f in t.fields.items():
                 st = members.get(fname)
+                if st is None and fname in inherited and kind.startswith("pydantic"):
+                    # not declared again by the implementer: the member it inherits must still have the implementer's (possibly narrower) type
+                    for i in t.interfaces:
+                        base = classes.get(i.name)
+                        for bst in (base.body if base is not None else []):
+                            if isinstance(bst, ast.AnnAssign) and isinstance(bst.target, ast.Name) and bst.target.id == fname:
+                                st = bst
                 if st is None:
                     continue
                 d_model = den(st.annotation)
@@ -297,6 +304,11 @@ def check_sdl(sdl, kind, opts, extra_template=None):
             for m in t.types:
                 if m.name not in names:
                     return f"union {tname} lacks member {m.name}"
+    if "union " in sdl and kind != "msgspec.Struct":
+        mod, err = e2e.load_module(g.text, kind)
+        e2e.unload(mod)
+        if err and ("NameError" in err or "is not defined" in err):
+            return f"module does not execute: {err}"
     return None
 
 
@@ -319,6 +331,18 @@ def falsify(ctx):
         if rng.random() < 0.35:
             extra = rng.choice([{"Date": {"py_type": "datetime"}}, {"ID": {"py_type": "int"}}, {"Float": {"py_type": "complex"}, "Date": {"py_type": "int"}}])
         cases.append((gen_sdl(rng), kind, opts, extra))
+    # directed documents: implementers that narrow an interface field (String -> String!, [String] -> [String!]!), unions of one
+    # and two members whose members no field refers to (declared before and after their members)
+    DIRECTED = [
+        "interface Named {\n  name: String\n  tags: [String]\n  id: ID\n}\n\ntype User implements Named {\n  name: String!\n  tags: [String!]!\n  id: ID\n  age: Int\n}\n\ntype Query { u: User }\n",
+        "interface Node {\n  id: ID\n  peers: [Node]\n}\n\ntype Leaf implements Node {\n  id: ID!\n  peers: [Node!]\n}\n",
+        "type Book {\n  title: String\n}\n\nunion SearchHit = Book\n\ntype Query { n: Int }\n",
+        "union SearchHit = Book\n\ntype Book {\n  title: String\n}\n",
+        "type Book {\n  title: String\n}\n\ntype Film {\n  name: String\n}\n\nunion Media = Book | Film\n",
+    ]
+    for sdl in DIRECTED:
+        for kind in ("pydantic_v2.BaseModel", "pydantic.BaseModel", "typing.TypedDict"):
+            cases.insert(0, (sdl, kind, {}, None))
     for sdl, kind, opts, extra in cases:
         if kind == "dataclasses.dataclass" and "implements" in sdl:
             continue  # dataclass field order with interfaces (C02-dataclass-default-order)
